@@ -52,15 +52,26 @@ TextOfLexemes(s, lay) ==
       [] lay = "amounts" -> "2024-01-01 x\n" \o Cat([i \in 1..Len(ws) |-> "    a:b  " \o ws[i]], "\n") \o "\n    c:d  1 USD\n"
       [] OTHER           -> Cat(ws, "\n")
 
+(* "comments": a comment whose text is any string of <= MaxLen characters over what matters inside comments (tag syntax):
+   letters ASCII / non-ASCII / non-BMP, colon, comma, blank -- as a top-level comment, a header comment and a posting comment *)
+CChars == << "a", "é", "😀", ":", ",", " ", "1" >>
+CPlacements == {"top", "header", "posting"}
+TextOfComment(s, pl) ==
+    LET body == Cat([i \in 1..Len(s) |-> CChars[s[i]]], "") IN
+    CASE pl = "top"    -> ";" \o body
+      [] pl = "header" -> "2024-01-01 x  ;" \o body \o "\n    a:b  1\n    c:d"
+      [] OTHER         -> "2024-01-01 x\n    a:b  1  ;" \o body \o "\n    c:d"
+
 VARIABLES par, stg
 vars == <<par, stg>>
 
 Init == /\ stg = 0
         /\ par \in IF Family = "chars" THEN { <<s, pl>> : s \in Seqs(Len(Chars), MaxLen), pl \in Placements }
+                    ELSE IF Family = "comments" THEN { <<s, pl>> : s \in Seqs(Len(CChars), MaxLen), pl \in CPlacements }
                     ELSE { <<s, lay>> : s \in Seqs(Len(Lexemes), MaxLen), lay \in Layouts }
 Next == stg = 0 /\ stg' = 1 /\ UNCHANGED par
 
-TextOf(p) == IF Family = "chars" THEN TextOfChars(p[1], p[2]) ELSE TextOfLexemes(p[1], p[2])
+TextOf(p) == IF Family = "chars" THEN TextOfChars(p[1], p[2]) ELSE IF Family = "comments" THEN TextOfComment(p[1], p[2]) ELSE TextOfLexemes(p[1], p[2])
 
 (* theorem of the enumeration itself: the number of cases is sum_{i<=MaxLen} k^i times the placements *)
 Emit == stg = 1 => PrintT(ToJson([t |-> TextOf(par), n |-> Len(par[1]), w |-> par[2]]))
